@@ -59,6 +59,15 @@ class DataPathCheck:
         self.traces += tr
         return tr
 
+    def run_driver(self, driver, scenarios, name, timeout=3000):
+        """scenarios of a node-level driver that records in the data-path vocabulary (validated with the same trace spec)"""
+        tr = vlib.run_harness(driver, scenarios, name=name, timeout=timeout)
+        for s in scenarios:
+            s.setdefault("driver", driver)
+        self.scen += scenarios
+        self.traces += tr
+        return tr
+
     def explore(self, base, depth, max_runs, branch_cap=4):
         k = [0]
 
@@ -182,7 +191,7 @@ def replay(prop, path):
     print("stored trace: %d violation record(s) of %s" % (len(stored), doc["violation"]["invariant"]))
     again = 0
     runs = 5
-    traces = vlib.run_harness("datapath", [dict(sc, id="%s-r%d" % (sc["id"], i)) for i in range(runs)], name="replay")
+    traces = vlib.run_harness(sc.get("driver", "datapath"), [dict(sc, id="%s-r%d" % (sc["id"], i)) for i in range(runs)], name="replay")
     viols, _ = vlib.validate_traces("DataPathTrace", vlib.spec_files("datapath"),
                                     vlib.project(traces, keep=TRACE_KEEP), name="replay1")
     again = len({v["scen"] for v in viols if v["inv"] == doc["violation"]["invariant"]})
